@@ -414,6 +414,31 @@ func (fr *Frame) applyContract(n *vnode, instr *ssa.Call, con *Contract, callee 
 		res = x.freshVal("r$"+ident(cname), resT)
 		results = []*Val{res}
 	}
+	// a freshly allocated result object: its fields did not exist in the caller's heap
+	{
+		rn := resultNames(con, sig)
+		for i, r := range results {
+			if r.T == nil || r.T.S.K != KInt {
+				continue
+			}
+			pt, isPtr := derefType(r.Ty)
+			if !isPtr {
+				continue
+			}
+			if _, isStruct := pt.Underlying().(*types.Struct); !isStruct {
+				continue
+			}
+			mentions := con.Fresh
+			for _, en := range con.Ensures {
+				if i < len(rn) && strings.Contains(en.Text, "fresh("+rn[i]+")") || len(results) == 1 && strings.Contains(en.Text, "fresh(result)") {
+					mentions = true
+				}
+			}
+			if mentions {
+				fr.havocObjectX(n, r.T, pt, true)
+			}
+		}
+	}
 	if con.Fresh {
 		for _, r := range results {
 			if r.T != nil && r.T.S.K == KInt && isRefType(r.Ty) {
@@ -538,10 +563,22 @@ func (fr *Frame) havocSliceElems(n *vnode, sv *SV) {
 	j := Var("j?", SInt)
 	x.vc.Assume(Forall([]*Term{j}, Implies(Or(Lt(j, SOff(sv.T)), Ge(j, Add(SOff(sv.T), SCap(sv.T)))),
 		Eq(App("select", es, row, j), App("select", es, oldRow, j)))))
+	if x.opaque["bitAt"] && es.K == KBV && es.W == 8 {
+		B := Var("B?", SInt)
+		lo := Mul(IntLit(8), SOff(sv.T))
+		hi := Mul(IntLit(8), Add(SOff(sv.T), SCap(sv.T)))
+		q := Forall([]*Term{B}, Implies(Or(Lt(B, lo), Ge(B, hi)), Eq(x.rowBit(row, B), x.rowBit(oldRow, B))))
+		q.Pats = [][]*Term{{x.rowBit(row, B)}}
+		x.vc.Assume(q)
+	}
 	n.heap[comp] = x.nameBig(Store(cur, SArr(sv.T), row), comp)
 }
 
 func (fr *Frame) havocObject(n *vnode, ref *Term, t types.Type) {
+	fr.havocObjectX(n, ref, t, false)
+}
+
+func (fr *Frame) havocObjectX(n *vnode, ref *Term, t types.Type, all bool) {
 	x := fr.x
 	st, ok := t.Underlying().(*types.Struct)
 	if !ok {
@@ -550,10 +587,10 @@ func (fr *Frame) havocObject(n *vnode, ref *Term, t types.Type) {
 	for i := 0; i < st.NumFields(); i++ {
 		f := st.Field(i)
 		if _, isStruct := f.Type().Underlying().(*types.Struct); isStruct {
-			fr.havocObject(n, x.embRef(t, f.Name(), ref), f.Type())
+			fr.havocObjectX(n, x.embRef(t, f.Name(), ref), f.Type(), all)
 			continue
 		}
-		if ts, _ := x.typeSpecOf(t); ts != nil && contains(ts.Immutable, f.Name()) {
+		if ts, _ := x.typeSpecOf(t); !all && ts != nil && contains(ts.Immutable, f.Name()) {
 			continue
 		}
 		p := x.fieldPlace(t, i, ref)
@@ -738,7 +775,11 @@ func (fr *Frame) builtinCopy(n *vnode, instr *ssa.Call, c *ssa.CallCommon) *Val 
 	cntV := x.eng.FreshVar("copyn", SInt)
 	x.vc.Assume(Eq(cntV, cnt))
 	cur := x.comp(n.heap, comp, memSort(es))
-	fr.frameCheck(n, &Place{Comp: comp, Elem: es, Ref: SArr(dst.T), Idx: SOff(dst.T)}, instr.Pos())
+	if x.frameOK != nil {
+		if g := x.frameOK(&Place{Comp: comp, Elem: es, Ref: SArr(dst.T), Idx: SOff(dst.T)}, n.heap); g != nil {
+			x.vc.Oblige("frame", "", And(n.reach, Gt(cntV, IntLit(0))), g, x.pos(instr.Pos()), "copy outside the contract's modifies clause: "+comp)
+		}
+	}
 	row := x.eng.FreshVar(comp+"$row", cur.S.Elem)
 	oldRow := Select(cur, SArr(dst.T))
 	j := Var("j?", SInt)
@@ -753,6 +794,17 @@ func (fr *Frame) builtinCopy(n *vnode, instr *ssa.Call, c *ssa.CallCommon) *Val 
 	x.vc.Assume(Implies(n.reach, Forall([]*Term{j}, And(
 		Implies(inside, Eq(App("select", es, row, j), srcElem)),
 		Implies(Not(inside), Eq(App("select", es, row, j), App("select", es, oldRow, j)))))))
+	if x.opaque["bitAt"] && es.K == KBV && es.W == 8 && !srcIsStr {
+		B := Var("B?", SInt)
+		lo := Mul(IntLit(8), SOff(dst.T))
+		hi := Mul(IntLit(8), Add(SOff(dst.T), cntV))
+		srcRow := Select(cur, SArr(src.T))
+		q := Forall([]*Term{B}, Ite(And(Le(lo, B), Lt(B, hi)),
+			Eq(x.rowBit(row, B), x.rowBit(srcRow, Add(Sub(B, lo), Mul(IntLit(8), SOff(src.T))))),
+			Eq(x.rowBit(row, B), x.rowBit(oldRow, B))))
+		q.Pats = [][]*Term{{x.rowBit(row, B)}}
+		x.vc.Assume(Implies(n.reach, q))
+	}
 	// memmove semantics for overlapping ranges differ from the formula above only when src and dst share the row;
 	// require they do not, or that the ranges coincide.
 	if !srcIsStr {
